@@ -528,8 +528,12 @@ def _run(ctx, module, args):
     ev['coverage']['driver_wall_s'] = round(DRIVER_TIME[0], 2)
     if ctx.notes:
         ev['coverage']['notes'] = ctx.notes[:40]
-    os.makedirs(os.path.join(VERIF, 'evidence'), exist_ok=True)
-    with open(os.path.join(VERIF, 'evidence', pid + '.json'), 'w') as f:
+    # development runs against a scratch tree (ODL_REPO=…) must never overwrite the evidence
+    # of /repo itself
+    evdir = os.path.join(VERIF, 'evidence') if not os.environ.get('ODL_REPO') \
+        else os.path.join(VERIF, 'out', 'evidence_dev')
+    os.makedirs(evdir, exist_ok=True)
+    with open(os.path.join(evdir, pid + '.json'), 'w') as f:
         json.dump(ev, f, indent=1, default=str)
     print('{} tier={} seed={} obligations={}/{} evaluations={} distinct={} disagreements={} '
           'violations={} known={} wall={:.1f}s'.format(
